@@ -88,10 +88,13 @@ func (g *GroupMod) MarshalBinary() (data []byte, err error) {
 	n += 4
 	data = append(data, bytes...)
 
-	for _, bkt := range g.Buckets {
-		bytes, err = bkt.MarshalBinary()
-		data = append(data, bytes...)
-		log.Debugf("Groupmod bucket: %v", bytes)
+	// A delete command carries no buckets: Len() does not count them, so they must not be emitted.
+	if g.Command != OFPGC_DELETE {
+		for _, bkt := range g.Buckets {
+			bytes, err = bkt.MarshalBinary()
+			data = append(data, bytes...)
+			log.Debugf("Groupmod bucket: %v", bytes)
+		}
 	}
 
 	log.Debugf("GroupMod(%d): %v", len(data), data)
